@@ -126,6 +126,79 @@ FITS_WORLDS = {
 }
 
 
+def _world_env(pr, f, w, is_item_value):
+    """truth values of the atoms of formula f that are decided by the kind of value (`w`, one of FITS_WORLDS) the
+    flattened item holds; the second result lists the atoms that test the item value's own truthiness"""
+    env, truthy = {}, []
+    for key in pr.atoms_of(f):
+        kind, a_, b_ = pr.atoms[key]
+        val = None
+        if a_ is not None and a_.op == "IsInstance" and is_item_value(a_.args[0]):
+            ts = a_.args[1].args if a_.args[1].op == "Tuple" else (a_.args[1],)
+            names = {t.attr for t in ts if t.op == "Ext"}
+            if len(names) == len(ts):
+                val = bool(names & w["types"])
+        elif kind == "o" and a_ is not None and a_.op == "Compare" and a_.attr in ("Is", "IsNot") and \
+                any(is_item_value(x) for x in a_.args) and \
+                any(x.op == "Const" and x.attr is None for x in a_.args):
+            val = w["none"] if a_.attr == "Is" else (not w["none"])
+        elif a_ is not None and a_.op == "Call" and a_.args[0].op == "Ext" and \
+                a_.args[0].attr in ("math.isfinite", "numpy.isfinite") and len(a_.args) == 2 and \
+                is_item_value(a_.args[1]):
+            val = w["finite"]
+        elif kind == "o" and a_ is not None and is_item_value(a_):
+            if w["none"]:
+                val = False             # None is falsy
+            else:
+                truthy.append(key)      # False, 0, 0.0 and '' are values of this kind, and so are truthy ones
+        if val is not None:
+            env[key] = val
+    return env, truthy
+
+
+def _header_items_not_filtered(ck, I, sp0, is_item_value):
+    """R16.1: a condition on the comprehension that carries the flattened items into the table's meta drops the items
+    it rejects.  The header is complete only if the condition holds for every value a FITS card can hold: it is
+    evaluated for None, bool, int, str and finite float, the item value's own truthiness taken both ways for the kinds
+    that have falsy members (False, 0, 0.0, '')."""
+    from ..facets.pred import Pred
+    from ..facets.poly import eval_formula
+    conds = sp0.args[3:]
+    if not conds:
+        return
+    g = I.g
+    pr = Pred(I)
+    f = ("const", True)
+    for c in conds:
+        f = ("and", f, pr.formula(c))
+    dropped, undecided = [], []
+    for wname, w in FITS_WORLDS.items():
+        env, truthy = _world_env(pr, f, w, is_item_value)
+        outcomes = set()
+        for bits in range(1 << len(truthy)):
+            e2 = dict(env)
+            for k_, key in enumerate(truthy):
+                e2[key] = bool(bits >> k_ & 1)
+            outcomes.add(eval_formula(f, e2))
+        if False in outcomes:
+            dropped.append(wname)
+        elif None in outcomes:
+            undecided.append(wname)
+    shown = " and ".join(g.show(c, 3) for c in conds)
+    if dropped:
+        ck.ob("R16.1", "every flattened configuration item reaches the header (no item is filtered out)", False, conds[0],
+              "results_table.init", f"items are kept only if {shown}: configuration values of kind "
+              f"{', '.join(dropped)} can fail the test (False, 0, 0.0, '' and None are configuration values) and then "
+              "leave no card at all", construct="results_table.init: flattened items filtered on the way into the header")
+    elif undecided:
+        ck.ob("R16.1", "every flattened configuration item reaches the header (no item is filtered out)", None, conds[0],
+              "results_table.init", f"whether the filter {shown} can reject a value of kind {', '.join(undecided)} "
+              "depends on tests outside the modelled set")
+    else:
+        ck.ob("R16.1", "every flattened configuration item reaches the header (no item is filtered out)", True, conds[0],
+              "results_table.init", f"the filter {shown} holds for every value a FITS card can hold")
+
+
 def _header_values_preserved(ck, I, sp0):
     """R16.1: if the flattened items pass through a per-value transformation on their way into the table's meta
     (dict comprehension over the items), every value a FITS card can hold must come out as itself.  The
@@ -140,6 +213,7 @@ def _header_values_preserved(ck, I, sp0):
 
     def is_item_value(n):
         return n.op == "Elem" and n.attr == 1 and n.args[0].op == "IterElem" and n.args[0].args[0] is it
+    _header_items_not_filtered(ck, I, sp0, is_item_value)
     if not any(is_item_value(x) for x in walk([vel])):
         return          # not a per-item transformation of the flattened values (decided by the other obligations)
     leaves_ = []
